@@ -178,7 +178,7 @@ impl Known {
 pub fn check(prop: &str, tier: &str) -> i32 {
     let started = Instant::now();
     // scratch directories of workers that were killed by the watchdog in an earlier check
-    if let Ok(rd) = std::fs::read_dir(std::env::var("VERIF_SCRATCH").unwrap_or_else(|_| "/dev/shm".into())) {
+    if let Ok(rd) = std::fs::read_dir(crate::scen::scratch_base()) {
         for e in rd.flatten() {
             let name = e.file_name().to_string_lossy().to_string();
             if let Some(rest) = name.strip_prefix("iggy-sim-") {
